@@ -345,7 +345,7 @@ func (c Conc) checkAccessors(n datamodel.Node, v Value, o ObsOpts, path string) 
 	}
 	// AsFloat
 	if f, err := n.AsFloat(); v.K == "float" {
-		if err != nil || math.Float64bits(f) != math.Float64bits(g.F) {
+		if err != nil || (math.Float64bits(f) != math.Float64bits(g.F) && !(math.IsNaN(f) && math.IsNaN(g.F))) {
 			return mm(path, "AsFloat", fmt.Sprintf("%x", math.Float64bits(g.F)), fmt.Sprintf("%x err=%v", math.Float64bits(f), err))
 		}
 	} else if m := wrong("AsFloat", err); m != nil {
